@@ -324,8 +324,10 @@ def record_cli_case(cid, seed, origin='random'):
             return out
         events.append({'a': 'concat', 'kind': 'sum', 'setlike': 'T', 'what': 'lexicon %s' % gt,
                        'a_': lexpairs(la), 'b_': lexpairs(lb), 'ab': lexpairs(lab)})
-        if gt == 'treebank':
-            events.append({'a': 'concat', 'kind': 'sum', 'setlike': 'T', 'what': 'grammar treebank',
+        if gt == 'treebank' or mk:
+            # (Markovization labels depend on the rule and its context only, so those grammars add up as well;
+            #  the numbered labels of deterministic binarization do not)
+            events.append({'a': 'concat', 'kind': 'sum', 'setlike': 'T', 'what': 'grammar %s %s' % (gt, ' '.join(mk)),
                            'a_': rules_of(ga), 'b_': rules_of(gb), 'ab': rules_of(gab)})
         g2, l2 = gram('AB.export', 'gAB2', hs=str(rnd.randint(1, 999)))
         events.append({'a': 'repeat', 'setlike': 'T', 'what': 'grammar %s %s' % (gt, mk), 'out1': rules_of(gab), 'out2': rules_of(g2)})
